@@ -31,6 +31,27 @@ Theorem C14_total : forall likely x,
   wf_triple (li_lang x) None (li_region x) = true -> exists d, direction likely the_layout the_tables x = Ok d.
 Proof. exact direction_total. Qed.
 
+(* what else can and cannot matter (any layout, any tables): without likely-subtags the region never does;
+   with it the region can matter only for a language the layout data lists as right-to-left (the one place
+   where the likely script is consulted) *)
+Theorem C14_region_irrelevant_without_likely : forall L T l s r r' v v',
+  direction false L T (mkLangId l s r v) = direction false L T (mkLangId l s r' v').
+Proof. reflexivity. Qed.
+Theorem C14_region_matters_only_for_rtl_languages : forall L T l s r r' v,
+  direction true L T (mkLangId l s r v) = direction true L T (mkLangId l s r' v)
+  \/ exists lb, l = Some lb /\ nmem (le_pack lb) (ly_lang_rtl L) = true.
+Proof.
+  intros L T l s r r' v.
+  assert (B : direction_by_lang true L T (mkLangId l s r v) = direction_by_lang true L T (mkLangId l s r' v)
+              \/ exists lb, l = Some lb /\ nmem (le_pack lb) (ly_lang_rtl L) = true).
+  { unfold direction_by_lang. cbn [li_lang li_region]. destruct l as [lb|]; [|left; reflexivity].
+    destruct (nmem (le_pack lb) (ly_lang_rtl L)) eqn:E; [right; exists lb; split; [reflexivity|exact E]|left; reflexivity]. }
+  destruct B as [B|B]; [left|right; exact B].
+  unfold direction. cbn [li_script]. destruct s as [sc|]; [cbn zeta; rewrite B; reflexivity|exact B].
+Qed.
+Print Assumptions C14_region_irrelevant_without_likely.
+Print Assumptions C14_region_matters_only_for_rtl_languages.
+
 Example C14_ex : spec_script_dir the_lay (bs "Arab"%string) = Some RTL /\ spec_lang_rtl the_lay (bs "en"%string) = false
   /\ spec_lang_multi the_lay (bs "az"%string) = true.
 Proof. repeat split; vm_compute; reflexivity. Qed.
